@@ -112,6 +112,9 @@ META["rule"] += (
 META["rule"] += (
     " " + 'Added after the seventh round: the caller rescales its distance array (and the tolerance) in place between two geographical rewiring calls on one network.')
 
+META["rule"] += (
+    " " + 'Added after the eighth round: node weights before and after set_random_links_by_distance; one case in eight of every generator has 129 .. 300 nodes.')
+
 EPS_FLOAT_SLACK = 1e-5
 HARD_KILL_S = 25
 
@@ -187,8 +190,14 @@ def case_model(ctx, k, cid):
     det = {"seed": seed}
     extra = []        # (signature suffix) of model specific invariants broken
     nontriv = False
+    # (one case in eight is a larger network: node counts whose squares and
+    #  link counts leave the 8 and 16 bit ranges)
+    big = int(r.choice([129, 183, 200, 257, 300])) if (k // 6) % 8 == 5 \
+        else 0
+    if big:
+        ctx.count("model_large_cases")
     if kind == "ErdosRenyi:n_links":
-        n = int(r.integers(2, 31))
+        n = big or int(r.integers(2, 31))
         M = n * (n - 1) // 2
         m = int(r.choice([0, 1, M, M - 1, int(r.integers(0, M + 1)),
                           int(r.integers(0, M + 1))]))
@@ -202,7 +211,7 @@ def case_model(ctx, k, cid):
                 extra.append("link-count!=n_links")
             nontriv = 0 < m < M
     elif kind == "ErdosRenyi:link_probability":
-        n = int(r.integers(2, 31))
+        n = big or int(r.integers(2, 31))
         p = float(r.choice([0.0, 1.0, 0.1, 0.3, 0.5, 0.9]))
         det.update(n_nodes=n, link_probability=p)
         ok, A = ctx.call(Network.ErdosRenyi, n_nodes=n, link_probability=p,
@@ -216,7 +225,7 @@ def case_model(ctx, k, cid):
                 extra.append("p=1-not-complete")
             nontriv = 0 < A.sum() < M
     elif kind == "BarabasiAlbert":
-        n = int(r.integers(2, 41))
+        n = big or int(r.integers(2, 41))
         m = int(r.integers(1, min(n - 1, 8) + 1))
         det.update(n_nodes=n, n_links_each=m)
         ok, A = ctx.call(Network.BarabasiAlbert, n_nodes=n, n_links_each=m)
@@ -230,7 +239,7 @@ def case_model(ctx, k, cid):
                     extra.append("new-node-links!=n_links_each")
             nontriv = n > m + 1
     elif kind == "BarabasiAlbert_igraph":
-        n = int(r.integers(2, 41))
+        n = big or int(r.integers(2, 41))
         m = int(r.integers(1, 7))
         det.update(n_nodes=n, n_links_each=m)
         ok, A = ctx.call(Network.BarabasiAlbert_igraph, n_nodes=n,
@@ -243,7 +252,7 @@ def case_model(ctx, k, cid):
                     extra.append("new-node-links>n_links_each")
             nontriv = n > 2
     elif kind == "Configuration":
-        n = int(r.integers(2, 31))
+        n = big or int(r.integers(2, 31))
         hi = int(r.integers(1, min(n - 1, 7) + 1))
         deg = r.integers(0, hi + 1, n)
         if deg.sum() % 2:
@@ -259,8 +268,8 @@ def case_model(ctx, k, cid):
                     extra.append("degree>requested")
             nontriv = sum(deg) > 0
     else:
-        n = int(r.integers(3, 31))
-        kk = int(r.integers(1, (n - 1) // 2 + 1))
+        n = big or int(r.integers(3, 31))
+        kk = int(r.integers(1, min((n - 1) // 2, 12) + 1))
         p = float(r.choice([0.0, 0.05, 0.3, 1.0]))
         det.update(N=n, k=kk, p=p)
         ok, A = ctx.call(Network.WattsStrogatz, n, kk, p)
@@ -744,6 +753,11 @@ def case_dist(ctx, k, cid):
     if not ok:
         ctx.count("rejected")
         return
+    # (the nodes carry weights -- area weights on a sphere, the owner's own
+    #  ones otherwise: no business of the link model)
+    if not geo and r.random() < 0.6:
+        net.node_weights = r.integers(1, 9, n) / 4.0
+    w_before = np.array(net.node_weights, dtype=float)
     op = "set_random_links_by_distance"
     seed = seed_lib(r)
     det = {"seed": seed, "n": n, "geo": geo, "a": a, "b": b,
@@ -769,6 +783,9 @@ def case_dist(ctx, k, cid):
         return
     if net.directed and not was_directed:
         ctx.violation(f"{op}:result-directed", det, cid)
+    if not np.array_equal(np.asarray(net.node_weights, dtype=float),
+                          w_before):
+        ctx.violation(f"{op}:node-weights-changed", det, cid)
     if was_directed:
         ctx.count("dist_links_from_directed_input")
     s = int(A1.sum())
